@@ -39,7 +39,7 @@ namespace c18
     {
         if (arena)
             return;
-        arena_size = 256u << 20;
+        arena_size = (size_t)64 << 30; // virtual only (MAP_NORESERVE): large blocks are touched at their edges, so multi-GiB requests can be granted and measured
         void* hint = (void*)0x5a0000000000ull; // 2 MiB aligned, far from everything
         void* p = mmap(hint, arena_size, PROT_READ | PROT_WRITE, MAP_PRIVATE | MAP_ANONYMOUS | MAP_NORESERVE | MAP_FIXED_NOREPLACE, -1, 0);
         arena_fixed = (p == hint);
